@@ -841,6 +841,14 @@ fn c13_schedule(order: usize, empty_pattern: bool, age: u32, rng: &mut Rng, id: 
     while w.n().tick(50).running && g < 100 {
         g += 1;
     }
+    // every other schedule: one writer stays between reserving its index and publishing the item for the whole schedule, so that
+    // the runs involved end with an unpublished index on their list (they still have to notify)
+    let held = if rng.coin() {
+        rep.count("c13.schedules-with-an-item-in-flight");
+        Some(HeldWriter::start(&mut w, k))
+    } else {
+        None
+    };
     // a run that will be held at its notification decision
     w.push_via(k, rng.range(5, 60), false);
     pause_at(Point::RunBeforeNotifyCheck);
@@ -1020,6 +1028,7 @@ fn c13_schedule(order: usize, empty_pattern: bool, age: u32, rng: &mut Rng, id: 
         );
     }
     // the event loop would now be stuck; finish the history normally
+    drop(held);
     while !w.handles.is_empty() {
         w.drop_injector(0);
     }
